@@ -175,7 +175,7 @@ func runAsm(t *testing.T, data []byte, plan simrt.ReaderPlan, tp *simrt.Tape, cf
 	return r
 }
 
-var reFrame = regexp.MustCompile(`(?m)^vws/gmars[ip]\.([^\n]*?)\(`)
+var reFrame = regexp.MustCompile(`(?m)^vws/gmars[ip]\.(.+)\(`)
 
 // topFrame returns the innermost gmars function on a panic stack.
 func topFrame(stack string) string {
